@@ -64,5 +64,7 @@ for _f in sorted(_glob.glob(_os.path.join(_os.path.dirname(_os.path.abspath(__fi
     _c["theorems"] = list(_c.get("theorems", [])) + [m for m in _t.get("theorems", []) if m not in _c.get("theorems", [])]
     _c["proof_files"] = list(_c.get("proof_files", [])) + [m for m in _t.get("proof_files", []) if m not in _c.get("proof_files", [])]
     _c["partial"] = list(_c.get("partial", [])) + _t.get("partial", [])
+    if _t.get("thm_scope"):
+        _c["thm_scope"] = _t["thm_scope"]
     if _t.get("level_text_add"):
         _c["level_text"] = _c.get("level_text", "") + " " + _t["level_text_add"]
